@@ -285,6 +285,11 @@ func (u *Unit) lookupName(env *SpecEnv, name string) (*Cell, bool) {
 		k, err := strconv.Atoi(name[i+2:])
 		if err == nil {
 			base := name[:i]
+			if env.st.frame != nil {
+				if n2, ok := u.aliasesOf(env.st.frame.fn)[base]; ok {
+					base = n2
+				}
+			}
 			n := 0
 			for f := env.st.frame; f != nil; f = f.parent {
 				for _, b := range f.fn.Blocks {
@@ -419,6 +424,9 @@ func (u *Unit) evalIdent(env *SpecEnv, name string) SV {
 
 // localType finds the type of a named local variable of the unit's function.
 func (u *Unit) localType(name string) types.Type {
+	if n2, ok := u.aliasesOf(u.fn)[name]; ok {
+		name = n2
+	}
 	for _, b := range u.fn.Blocks {
 		for _, in := range b.Instrs {
 			if al, ok := in.(*ssa.Alloc); ok && al.Comment == name {
